@@ -484,7 +484,11 @@ def r4(repo, run):
 
 def plain_container_eval(repo, run, rule):
     from . import tr
-    unitrules.plain_container_table(repo, run, rule)
+    table_err = None
+    try:
+        unitrules.plain_container_table(repo, run, rule)
+    except AnalysisError as e_:
+        table_err = e_       # (the trace rule below may still read the shape; if it cannot either, this is the verdict)
     for q, wrap, with_key in (('ConfigDict.ayns.on_evaluate_impl', 'Bunch', True), ('ConfigList.ayns.on_evaluate_impl', 'list', False)):
         fi = repo.func(q)
         pth, ctx = fi.params()[1], fi.params()[2]
@@ -496,6 +500,7 @@ def plain_container_eval(repo, run, rule):
         if with_key:
             want.add('%s.evaluate_node(%s[0])' % (ctx, it))
         probs = []
+        unread = False
         for p in paths:
             evs = [e for e in p.events if tr.is_call(e, attr=('evaluate_node', 'evaluate', 'on_evaluate', 'on_evaluate_impl'))]
             got = {norm(_call_text(e)) for e in evs if e.in_loop}
@@ -505,6 +510,7 @@ def plain_container_eval(repo, run, rule):
             if not got and not outside:
                 # nothing recognisable on the trace (the evaluation happens in a helper the result constructor consumes):
                 # which children are evaluated, and how, is decided by evaluation (unitrules.plain_container_table)
+                unread = True
                 continue
             if got != want:
                 extra, missing = sorted(got - want), sorted(want - got)
@@ -521,6 +527,8 @@ def plain_container_eval(repo, run, rule):
                 probs.append('result is %s..., not %s(...)' % (rt[:40], wrap))
         if probs:
             run.violation(rule, fi, norm(fi.node.body[-1])[:200], '; '.join(sorted(set(probs))[:3]), node=fi.node.body[-1])
+        elif unread and table_err is not None:
+            raise table_err
         else:
             run.ok(rule, fi, '%s(<evaluate_node of %s of every named child>)' % (wrap, 'key and value' if with_key else 'the value'), 'each child evaluated once, in child-map order, through ctx.evaluate_node; no filter')
     nc = repo.func('ComposedNode.ayns.named_children')
